@@ -241,3 +241,71 @@ pub fn rule_from_su(r: &Rule) -> Option<Clause> {
     let body = match &r.body { Goal::Nil => None, g => Some(goal_from_su(g)?) };
     Some(Clause { name, args, body })
 }
+
+// ------------------------------------------------------------------ variable ids (C10)
+
+pub fn erase_u(u: &Unifiable) -> Unifiable {
+    match u {
+        Unifiable::LogicVar { name, .. } => Unifiable::LogicVar { id: 0, name: name.clone() },
+        Unifiable::SComplex(v) => Unifiable::SComplex(v.iter().map(erase_u).collect()),
+        Unifiable::SFunction { name, terms } => Unifiable::SFunction { name: name.clone(), terms: terms.iter().map(erase_u).collect() },
+        Unifiable::SLinkedList { term, next, count, tail_var } =>
+            Unifiable::SLinkedList { term: Box::new(erase_u(term)), next: Box::new(erase_u(next)), count: *count, tail_var: *tail_var },
+        x => x.clone(),
+    }
+}
+
+pub fn erase_goal(g: &Goal) -> Goal {
+    match g {
+        Goal::ComplexGoal(u) => Goal::ComplexGoal(erase_u(u)),
+        Goal::BuiltInGoal(b) => Goal::BuiltInGoal(BuiltInPredicate { functor: b.functor.clone(), terms: b.terms.as_ref().map(|v| v.iter().map(erase_u).collect()) }),
+        Goal::OperatorGoal(op) => Goal::OperatorGoal(match op {
+            Operator::And(v) => Operator::And(v.iter().map(erase_goal).collect()),
+            Operator::Or(v) => Operator::Or(v.iter().map(erase_goal).collect()),
+            Operator::Not(v) => Operator::Not(v.iter().map(erase_goal).collect()),
+            Operator::Time(v) => Operator::Time(v.iter().map(erase_goal).collect()),
+        }),
+        Goal::Nil => Goal::Nil,
+    }
+}
+
+pub fn erase_rule(r: &Rule) -> Rule { Rule { head: erase_u(&r.head), body: erase_goal(&r.body) } }
+
+/// (name, id) of every variable occurrence, in order.
+pub fn var_occurrences_u(u: &Unifiable, out: &mut Vec<(String, usize)>) {
+    match u {
+        Unifiable::LogicVar { id, name } => out.push((name.clone(), *id)),
+        Unifiable::SComplex(v) => for x in v { var_occurrences_u(x, out) },
+        Unifiable::SFunction { terms, .. } => for x in terms { var_occurrences_u(x, out) },
+        Unifiable::SLinkedList { term, next, .. } => { var_occurrences_u(term, out); var_occurrences_u(next, out); }
+        _ => {}
+    }
+}
+
+pub fn var_occurrences_goal(g: &Goal, out: &mut Vec<(String, usize)>) {
+    match g {
+        Goal::ComplexGoal(u) => var_occurrences_u(u, out),
+        Goal::BuiltInGoal(b) => if let Some(t) = &b.terms { for x in t { var_occurrences_u(x, out) } },
+        Goal::OperatorGoal(Operator::And(v)) | Goal::OperatorGoal(Operator::Or(v)) | Goal::OperatorGoal(Operator::Not(v)) | Goal::OperatorGoal(Operator::Time(v)) =>
+            for x in v { var_occurrences_goal(x, out) },
+        Goal::Nil => {}
+    }
+}
+
+pub fn var_occurrences_rule(r: &Rule, out: &mut Vec<(String, usize)>) { var_occurrences_u(&r.head, out); var_occurrences_goal(&r.body, out); }
+
+/// The consistency part of C10 on the occurrences of one renamed clause: same name <=> same
+/// id, no id 0, all ids in (before, after]. Returns a description of the first defect.
+pub fn renaming_defect(occ: &[(String, usize)], before: usize, after: usize) -> Option<String> {
+    for (n, id) in occ {
+        if *id == 0 { return Some(format!("variable {} kept id 0", n)); }
+        if *id <= before || *id > after { return Some(format!("variable {} got id {} outside the fresh range ({}, {}]", n, id, before, after)); }
+    }
+    for (i, (n1, id1)) in occ.iter().enumerate() {
+        for (n2, id2) in &occ[i + 1..] {
+            if n1 == n2 && id1 != id2 { return Some(format!("two occurrences of {} got different ids {} and {}", n1, id1, id2)); }
+            if n1 != n2 && id1 == id2 { return Some(format!("different variables {} and {} share id {}", n1, n2, id1)); }
+        }
+    }
+    None
+}
